@@ -24,8 +24,9 @@ use arrow::array::{ArrayRef, AsArray};
 use arrow::buffer::Buffer;
 use arrow::csv::{QuoteStyle, WriterBuilder};
 use arrow::datatypes::{
-    DataType, Field, IntervalDayTimeType, IntervalMonthDayNanoType, IntervalUnit, Schema,
-    TimeUnit, UnionFields, UnionMode, i256,
+    ArrowPrimitiveType, DataType, Field, Float16Type, IntervalDayTimeType,
+    IntervalMonthDayNanoType, IntervalUnit, Schema, TimeUnit, UnionFields, UnionMode,
+    i256,
 };
 use arrow::ipc::{
     convert::fb_to_schema,
@@ -408,6 +409,9 @@ impl TryFrom<&protobuf::ScalarValue> for ScalarValue {
             Value::Uint16Value(v) => Self::UInt16(Some(*v as u16)),
             Value::Uint32Value(v) => Self::UInt32(Some(*v)),
             Value::Uint64Value(v) => Self::UInt64(Some(*v)),
+            Value::Float16Value(v) => Self::Float16(Some(
+                <Float16Type as ArrowPrimitiveType>::Native::from_f32(*v),
+            )),
             Value::Float32Value(v) => Self::Float32(Some(*v)),
             Value::Float64Value(v) => Self::Float64(Some(*v)),
             Value::Date32Value(v) => Self::Date32(Some(*v)),
